@@ -275,6 +275,10 @@ mod verif_nx_pipeline {
             "if (A = B) and (C <> D) or (E < F) then G := H + I + J + K;",
             "X := '''\n  q\n  ''' + Y + Z.W(1, 2);",
             "x := '''\n                                                                                                    text\n                                                                                                    '''.Replace(aaaaaaa, bbbbbbbbb) + ccccccc mod ddddddd;",
+            // text that a later rule changes (comment normalisation, keyword case) sitting on the wrap boundary
+            "Foo(aaaaaaaa, bbbbbbbbb, ccccccc); //c",
+            "Foo(aaaaaaaa, bbbbbbbbb); // cccc           ",
+            "IF Aaaaaaa THEN Bbbbbbbbbb(Cccccccc, Dddddddd) ELSE Eeeeeeee; ///x",
         ];
         let mut n = 0u64;
         for crlf in [false, true] {
@@ -284,7 +288,7 @@ mod verif_nx_pipeline {
                 let (w, _) = fmt(wide, &p, Vec::new());
                 let nl = if crlf { "\r\n" } else { "\n" };
                 let mut prev_lines = usize::MAX;
-                for limit in (16..=100u32).step_by(3) {
+                for limit in (16..=100u32).step_by(if s1.contains("//") || s2.contains("//") { 1 } else { 3 }) {
                     let narrow = leak(config(false, 2, 2, crlf, limit, false));
                     let (o, _) = fmt(narrow, &p, Vec::new());
                     if w.split(nl).all(|l| l.len() as u32 <= limit) {
@@ -397,6 +401,21 @@ mod verif_nx_pipeline {
                 n += 1;
             }
         }
+        // multi-line tokens with non-ASCII text: positions inside them are byte counts, not character counts
+        for t in ["a := 1;\n{ note:\n  gr\u{f6}\u{df}e x\n}\nb := 2;\n", "a :=\n    '''\n    \u{4e2d}\u{6587} gr\u{f6}\u{df}e\n    x\u{e9}\n    ''';\n", "{\u{e9}\n\u{e9}\u{e9}}\n"] {
+            let cursors: Vec<u32> = (0..=t.len() as u32).filter(|&c| t.is_char_boundary(c as usize)).collect();
+            let (out, cs) = fmt(cfg, t, cursors.clone());
+            assert!(out == t, "NX self-check: the text is already formatted: {:?} -> {:?}", t, out);
+            for (i, c) in cs.iter().enumerate() {
+                // a cursor in the blanks between tokens may move within them; inside or at the end of a token it stays
+                let in_blank = (cursors[i] as usize) < t.len() && t[cursors[i] as usize..].starts_with(|ch: char| ch == ' ' || ch == '\n') && (cursors[i] == 0 || t[..cursors[i] as usize].ends_with(|ch: char| ch == ' ' || ch == '\n'));
+                if !in_blank {
+                    assert!(*c == cursors[i], "OB pipeline/cursor_same_offset_unchanged_token: a cursor inside or at the end of a token whose text is unchanged keeps its offset inside that token\n input={:?}\n cursor={} got={}", t, cursors[i], c);
+                }
+                assert!((*c as usize) <= out.len() && out.is_char_boundary(*c as usize), "OB pipeline/cursor_within_output: every reported cursor lies within the output on a character boundary\n input={:?} cursor={} got={}", t, cursors[i], c);
+                n += 1;
+            }
+        }
         println!("NX pipeline_cursor_special: {} cases", n);
         assert!(n > 1_500, "enumeration ran");
     }
@@ -487,6 +506,11 @@ mod verif_nx_pipeline {
             "begin\n  a;   \n\n\n\n  if b then   \n\n    c;\nend.\n",
             "type T = class\n\n\n\n  private   \n    F: Integer;   \nend;\n",
             "foo(procedure begin a; end,   \n\n\n\n  b);\n",
+            // partly ignored parent lines: the child lines that are NOT ignored are still laid out
+            "Foo({pasfmt off}procedure begin{pasfmt on}\n   A := 1;\n\n\n\n   B := 2;\n end);\n",
+            "Foo(procedure {pasfmt off}begin{pasfmt on}\n   A := 1;   \n\n\n\n   B := 2;\n end);\n",
+            "X := {pasfmt off}procedure{pasfmt on} begin\n   A := 1;\n\n\n\n   B := 2;   \n end;\n",
+            "if A then {pasfmt off}begin{pasfmt on}\n   B   :=   1;\n\n\n\n   C;   \nend;\n",
         ];
         let cfg = leak(config(false, 2, 2, false, 120, false));
         let mut n = 0u64;
@@ -516,7 +540,7 @@ mod verif_nx_pipeline {
             n += 1;
         }
         println!("NX pipeline_whitespace_corners: {} cases", n);
-        assert!(n >= 10, "enumeration ran");
+        assert!(n >= 14, "enumeration ran");
         assert!(failing.is_empty(), "OB pipeline/canonical_whitespace_corners: outside verbatim regions and multi-line tokens no output line ends in blanks, there are never two consecutive blank lines and no blank line at the start of the file - for all inputs\n failing cases ({}):\n{}", failing.len(), failing.join("\n"));
     }
 
@@ -537,6 +561,22 @@ mod verif_nx_pipeline {
             assert!(!o1.replace(nl, "").contains('\r') && !o1.replace(nl, "").contains('\n'), "OB pipeline/only_configured_line_ending: every line break in the output is the configured line ending\n input={:?}\n output={:?}", lf, o1);
             n += 1;
         }}}}
+        // a logical line that STARTS with a multi-line string which is re-indented (so it is not "kept verbatim"): the wrapping of
+        // the rest of the line must not depend on the input's line endings
+        for body_lines in [1usize, 3, 5] {
+            for call in [".Foo(bbbbbbbb, ccccccc);", ".Replace(aaaaaaa, bbbbbbb, ccccccc) + dddd;"] {
+                let body: String = (0..body_lines).map(|i| format!("line{}\n", i)).collect();
+                let lf = format!("begin\n'''\n{body}'''{call}\nend;\n");
+                let crlf = lf.replace('\n', "\r\n");
+                for limit in 30..=70u32 {
+                    let cfg = leak(config(false, 2, 2, false, limit, false));
+                    let (o1, _) = fmt(cfg, &lf, Vec::new());
+                    let (o2, _) = fmt(cfg, &crlf, Vec::new());
+                    assert!(o1 == o2, "OB pipeline/input_endings_do_not_matter: CRLF input gives the same output as LF input\n input={:?} wrap_column={}\n from_lf={:?}\n from_crlf={:?}", lf, limit, o1, o2);
+                    n += 1;
+                }
+            }
+        }
         println!("NX pipeline_input_line_endings: {} cases", n);
         assert!(n > 3_000, "enumeration ran");
     }
